@@ -7,10 +7,7 @@ let hx = hex_of_bytes
 let cat = String.concat
 let lmap = Stdlib.List.map
 
-let cls_of (o : 'a Base.outcome) : string =
-  match o with
-  | Base.Err c when int_of_z c = 900 -> "unmodelled"
-  | _ -> cls_name o
+let cls_of (o : 'a Base.outcome) : string = cls_name o
 
 let q_str (q : M.question) = Printf.sprintf "%s~%s~%s" (hx q.M.q_name) (zi q.M.q_type) (zi q.M.q_class)
 
@@ -23,8 +20,23 @@ let r_str (r : M.rr) =
       (zi s.M.so_refresh) (zi s.M.so_retry) (zi s.M.so_expire) (zi s.M.so_minimum) in
   let srv = Printf.sprintf "%s.%s.%s.%s" (zi v.M.sv_prio) (zi v.M.sv_weight) (zi v.M.sv_port) (hx v.M.sv_name) in
   let mx = Printf.sprintf "%s.%s" (zi m.M.mx_pref) (hx m.M.mx_name) in
+  let n = r.M.r_naptr in
+  let naptr = cat "." [zi n.M.na_order; zi n.M.na_pref; hx n.M.na_flags; hx n.M.na_service; hx n.M.na_regexp; hx n.M.na_repl] in
+  let opt = Printf.sprintf "%d:%s" (Stdlib.List.length r.M.r_opt)
+      (cat "." (lmap (fun (o : M.dopt) -> zi o.M.op_code ^ "-" ^ hx o.M.op_data) r.M.r_opt)) in
+  let g = r.M.r_rrsig in
+  let rrsig = cat "." [zi g.M.sg_covered; zi g.M.sg_alg; zi g.M.sg_labels; zi g.M.sg_ottl; zi g.M.sg_exp; zi g.M.sg_inc;
+                       zi g.M.sg_tag; hx g.M.sg_signer; hx g.M.sg_sig] in
+  let k = r.M.r_dnskey in
+  let dnskey = cat "." [zi k.M.dk_flags; zi k.M.dk_proto; zi k.M.dk_alg; hx k.M.dk_key] in
+  let b = r.M.r_svcb in
+  let svcb = Printf.sprintf "%s.%s.%d:%s" (zi b.M.sb_prio) (hx b.M.sb_target) (Stdlib.List.length b.M.sb_params)
+      (cat "_" (lmap (fun (p : M.svcparam) -> zi p.M.sp_key ^ "-" ^ hx p.M.sp_value) b.M.sb_params)) in
+  let u = r.M.r_uri in
+  let uri = cat "." [zi u.M.u_prio; zi u.M.u_weight; hx u.M.u_target] in
   cat "~" [hx r.M.r_name; zi r.M.r_type; zi r.M.r_class; zi r.M.r_ttl; zi r.M.r_dlen; hx r.M.r_data; hx r.M.r_ip;
-           hx r.M.r_ns; hx r.M.r_cname; hx r.M.r_ptr; txts_str r.M.r_txts; hx r.M.r_txt; soa; srv; mx]
+           hx r.M.r_ns; hx r.M.r_cname; hx r.M.r_ptr; txts_str r.M.r_txts; hx r.M.r_txt; soa; srv; mx;
+           naptr; opt; rrsig; dnskey; svcb; uri]
 
 let rs_str rs = cat "|" (lmap r_str rs)
 
@@ -63,7 +75,21 @@ let build_r s : M.rr =
     r_soa = { M.so_mname = bx so.(0); so_rname = bx so.(1); so_serial = zs so.(2); so_refresh = zs so.(3);
               so_retry = zs so.(4); so_expire = zs so.(5); so_minimum = zs so.(6) };
     r_srv = { M.sv_prio = zs sv.(0); sv_weight = zs sv.(1); sv_port = zs sv.(2); sv_name = bx sv.(3) };
-    r_mx = { M.mx_pref = zs m.(0); mx_name = bx m.(1) } }
+    r_mx = { M.mx_pref = zs m.(0); mx_name = bx m.(1) };
+    r_naptr = (let n = Array.of_list (split_on '.' f.(15)) in
+               { M.na_order = zs n.(0); na_pref = zs n.(1); na_flags = bx n.(2); na_service = bx n.(3); na_regexp = bx n.(4); na_repl = bx n.(5) });
+    r_opt = (let (c, l) = split_first ':' f.(16) in
+             if int_of_string c > 0 then lmap (fun o -> let (k, d) = split_first '-' o in { M.op_code = zs k; op_data = bx d }) (split_on '.' l) else []);
+    r_rrsig = (let g = Array.of_list (split_on '.' f.(17)) in
+               { M.sg_covered = zs g.(0); sg_alg = zs g.(1); sg_labels = zs g.(2); sg_ottl = zs g.(3); sg_exp = zs g.(4); sg_inc = zs g.(5);
+                 sg_tag = zs g.(6); sg_signer = bx g.(7); sg_sig = bx g.(8) });
+    r_dnskey = (let k = Array.of_list (split_on '.' f.(18)) in
+                { M.dk_flags = zs k.(0); dk_proto = zs k.(1); dk_alg = zs k.(2); dk_key = bx k.(3) });
+    r_svcb = (let b = Array.of_list (split_on '.' f.(19)) in
+              let (c, l) = split_first ':' b.(2) in
+              { M.sb_prio = zs b.(0); sb_target = bx b.(1);
+                sb_params = if int_of_string c > 0 then lmap (fun o -> let (k, v) = split_first '-' o in { M.sp_key = zs k; sp_value = bx v }) (split_on '_' l) else [] });
+    r_uri = (let u = Array.of_list (split_on '.' f.(20)) in { M.u_prio = zs u.(0); u_weight = zs u.(1); u_target = bx u.(2) }) }
 
 let build_rs s = if s = "" then [] else lmap build_r (split_on '|' s)
 
